@@ -80,7 +80,8 @@ func (sc c10Scenario) String() string {
 // lowered beside a mutator - SetReadOnly is not among the calls the statement lists, it is part of the
 // environment in which the listed ones must neither deadlock nor write outside the lock)
 func (sc c10Scenario) weak() bool {
-	if sc.Peer {
+	if sc.Peer || sc.PolPanics {
+		// (what is left of a batch whose policy panicked is not something the statement settles)
 		return true
 	}
 	for _, pr := range sc.Progs {
